@@ -480,6 +480,12 @@ def exec_call(desc, ctx):
             args["fk"] = kw["finalize_kwargs"]
         if desc.get("expected") is not None:
             kw["expected_groups"] = np.array(desc["expected"])
+            if desc.get("expected_range"):
+                import pandas as pd
+
+                # RangeIndex(n): flox takes the labels themselves as codes (no copy of the user's labels may be written to)
+                assert list(desc["expected"]) == list(range(len(desc["expected"])))
+                kw["expected_groups"] = pd.RangeIndex(len(desc["expected"]))
             args["expected"] = kw["expected_groups"]
         return args, lambda: tuple(fc.groupby_reduce(
             arr, by, func=func, min_count=desc.get("min_count"), fill_value=desc.get("fill"), dtype=desc.get("dtype"),
